@@ -665,8 +665,9 @@ def run_diff_rainbow_stub(*, N: int, vmin: int, B: int, n: int, nstep: bool, com
                     w = [0] * N
                     for _ in range(PDEN):
                         w[prng.randrange(N)] += 1
-                    if a == g and w == list(batches[nm]["rows"][i][0]):
-                        w = w[1:] + w[:1] if w[1:] + w[:1] != w else [PDEN] + [0] * (N - 1)
+                    if a == g:          # a distribution with another mean than the original one (all mass on an end atom)
+                        p0 = list(batches[nm]["rows"][i][0])
+                        w = [PDEN] + [0] * (N - 1) if p0[0] != PDEN else [0] * (N - 1) + [PDEN]
                     h.tpmf[kn][i, a] = torch.tensor(w, dtype=torch.float32) / PDEN
         idxs = torch.arange(B)
         wts = torch.tensor([[0.5 + 0.25 * (i % 3)] for i in range(B)])
